@@ -1,6 +1,7 @@
 package main
 
 import (
+	"bytes"
 	"encoding/binary"
 	"fmt"
 	"hash/fnv"
@@ -91,6 +92,12 @@ type streamDebugger struct {
 	scribble bool
 	termErr  error
 	limit    int
+	// position seen at BeforeExecuteOpcode, against which the snapshots handed
+	// to the stack callbacks of that instruction are compared
+	inOp                     bool
+	opScript, opIdx, opCount int
+	incons                   string
+	stackChecks              int
 }
 
 func (d *streamDebugger) ev(kind byte, s *interpreter.State, data []byte) {
@@ -98,6 +105,26 @@ func (d *streamDebugger) ev(kind byte, s *interpreter.State, data []byte) {
 		panic(mon.Sentinel{Why: "debugger called more than " + fmt.Sprint(d.limit) + " times"})
 	}
 	d.events = append(d.events, dbgEvent{kind, hashState(s, data)})
+	switch kind {
+	case evBeforeExecuteOpcode:
+		d.inOp, d.opScript, d.opIdx, d.opCount = true, s.ScriptIdx, s.OpcodeIdx, len(s.Scripts)
+	case evAfterExecuteOpcode, evAfterStep, evAfterError, evAfterExecute:
+		d.inOp = false
+	case evBeforeStackPush, evAfterStackPush, evBeforeStackPop, evAfterStackPop:
+		if d.inOp {
+			d.stackChecks++
+			if d.incons == "" && (s.ScriptIdx != d.opScript || s.OpcodeIdx != d.opIdx || len(s.Scripts) != d.opCount) {
+				d.incons = fmt.Sprintf("callback %d (%s) during the instruction at script %d offset %d of %d scripts was handed a snapshot positioned at script %d offset %d of %d scripts",
+					len(d.events)-1, evNames[kind], d.opScript, d.opIdx, d.opCount, s.ScriptIdx, s.OpcodeIdx, len(s.Scripts))
+			}
+			if d.incons == "" && kind == evAfterStackPush {
+				top := func(st [][]byte) bool { return len(st) > 0 && bytes.Equal(st[len(st)-1], data) }
+				if !top(s.DataStack) && !top(s.AltStack) {
+					d.incons = fmt.Sprintf("callback %d (AfterStackPush of %x): the element is on top of neither the data stack nor the alt stack of the snapshot handed to it", len(d.events)-1, data)
+				}
+			}
+		}
+	}
 	if d.scribble {
 		for _, st := range [][][]byte{s.DataStack, s.AltStack, s.ElseStack, s.SavedFirstStack} {
 			for i := range st {
@@ -137,14 +164,16 @@ func (d *streamDebugger) BeforeExecuteOpcode(s *interpreter.State) {
 	}
 	d.ev(evBeforeExecuteOpcode, s, nil)
 }
-func (d *streamDebugger) AfterExecuteOpcode(s *interpreter.State)        { d.ev(evAfterExecuteOpcode, s, nil) }
-func (d *streamDebugger) BeforeScriptChange(s *interpreter.State)        { d.ev(evBeforeScriptChange, s, nil) }
-func (d *streamDebugger) AfterScriptChange(s *interpreter.State)         { d.ev(evAfterScriptChange, s, nil) }
-func (d *streamDebugger) BeforeStackPush(s *interpreter.State, b []byte) { d.ev(evBeforeStackPush, s, b) }
-func (d *streamDebugger) AfterStackPush(s *interpreter.State, b []byte)  { d.ev(evAfterStackPush, s, b) }
-func (d *streamDebugger) BeforeStackPop(s *interpreter.State)            { d.ev(evBeforeStackPop, s, nil) }
-func (d *streamDebugger) AfterStackPop(s *interpreter.State, b []byte)   { d.ev(evAfterStackPop, s, b) }
-func (d *streamDebugger) AfterSuccess(s *interpreter.State)              { d.ev(evAfterSuccess, s, nil) }
+func (d *streamDebugger) AfterExecuteOpcode(s *interpreter.State) { d.ev(evAfterExecuteOpcode, s, nil) }
+func (d *streamDebugger) BeforeScriptChange(s *interpreter.State) { d.ev(evBeforeScriptChange, s, nil) }
+func (d *streamDebugger) AfterScriptChange(s *interpreter.State)  { d.ev(evAfterScriptChange, s, nil) }
+func (d *streamDebugger) BeforeStackPush(s *interpreter.State, b []byte) {
+	d.ev(evBeforeStackPush, s, b)
+}
+func (d *streamDebugger) AfterStackPush(s *interpreter.State, b []byte) { d.ev(evAfterStackPush, s, b) }
+func (d *streamDebugger) BeforeStackPop(s *interpreter.State)           { d.ev(evBeforeStackPop, s, nil) }
+func (d *streamDebugger) AfterStackPop(s *interpreter.State, b []byte)  { d.ev(evAfterStackPop, s, b) }
+func (d *streamDebugger) AfterSuccess(s *interpreter.State)             { d.ev(evAfterSuccess, s, nil) }
 func (d *streamDebugger) AfterError(s *interpreter.State, err error) {
 	d.termErr = err
 	d.ev(evAfterError, s, []byte(fmt.Sprint(err)))
@@ -349,6 +378,12 @@ func c19Judge(c *mon.Ctx, in *progInput) {
 		good = false
 		prev := "start"
 		c.Violationf("C19:lifecycle-order:"+e, "callback stream violates the documented lifecycle: %s (after %s); unlock=%x lock=%x flags=%#x err=%s", g, prev, []byte(in.Unlock), []byte(in.Lock), in.Flags, errText(err1))
+	}
+	// (c') the snapshots handed to the stack callbacks of an instruction are positioned at that instruction and show the pushed element
+	c.CountN("C19:stack-callback-snapshot-checks", int64(rec.stackChecks))
+	if rec.incons != "" {
+		good = false
+		c.Violationf("C19:stack-callback-snapshot-inconsistent:"+e, "%s; unlock=%x lock=%x flags=%#x", rec.incons, []byte(in.Unlock), []byte(in.Lock), in.Flags)
 	}
 	// (d) consecutive step snapshots: BeforeStep(k+1) == AfterStep(k)
 	var lastAfter *dbgEvent
